@@ -15,7 +15,7 @@ NOT_CLAIMED = {}   # property id -> reason (filled in when a property is deliber
 # checks that have been calibrated on the unchanged tree, shown to detect seeded mutations and are
 # silent across seeds; a module that exists but is not listed here is still under construction
 READY = ['C01', 'C02', 'C03', 'C04', 'C05', 'C06', 'C07', 'C08', 'C09', 'C10', 'C11', 'C12', 'C13',
-         'C14', 'C15', 'C16', 'C17', 'C19', 'C20', 'C21', 'C22', 'C23', 'C24', 'C25', 'C26', 'C27', 'C28', 'C29', 'C30', 'C31', 'C32', 'C33', 'C34']
+         'C14', 'C15', 'C16', 'C17', 'C18', 'C19', 'C20', 'C21', 'C22', 'C23', 'C24', 'C25', 'C26', 'C27', 'C28', 'C29', 'C30', 'C31', 'C32', 'C33', 'C34']
 
 BASELINE_CMD = ('cd /repo && env -u OPENMDAO_VERIF /venv/bin/python -m pytest -ra -q -p no:cacheprovider '
                 '--timeout=900 --continue-on-collection-errors')
